@@ -143,7 +143,9 @@ func c10Check(s string, roots []ast.Node) (nbad int, detail string) {
 			// a token right after "." is lexed as an identifier in context; in isolation the first token may differ in kind only
 			afterDot := bn.NodePos > 0 && s[bn.NodePos-1] == '.'
 			for i, t := range bn.Tokens {
-				if t.Raw != toks[i].Raw || (t.Kind != toks[i].Kind && !(i == 0 && afterDot) && !(t.Kind == ">" && toks[i].Kind == ">")) {
+				// a <bad> number ("5" glued to the following "then") owes its kind to the byte AFTER the range: re-lexed alone it is a plain number
+				lastBadNumber := i == len(bn.Tokens)-1 && t.Kind == token.TokenBad && (toks[i].Kind == token.TokenInt || toks[i].Kind == token.TokenFloat)
+				if t.Raw != toks[i].Raw || (t.Kind != toks[i].Kind && !(i == 0 && afterDot) && !lastBadNumber) {
 					return nbad, fmt.Sprintf("Bad node token %d is %s %q, its range lexes to %s %q", i, t.Kind, t.Raw, toks[i].Kind, toks[i].Raw)
 				}
 				if int(t.Pos) != int(bn.NodePos)+int(toks[i].Pos) && !(t.Kind == ">" && len(t.Raw) == 2) {
